@@ -207,6 +207,36 @@ fn check_patch_index(c: &PatchIndexProg) -> Verdict {
     roundtrip("patch-index", &parsed).nontrivial(c.entries >= 2)
 }
 
+// ---- archive index (all key sizes / offset widths; lookups are C03's business) ------------
+
+#[derive(Debug, Clone, Serialize, Deserialize)]
+struct ArchiveIndexProg {
+    key: u8,
+    off: u8,
+    n: u32,
+}
+
+fn check_archive_index(c: &ArchiveIndexProg) -> Verdict {
+    use cascette_formats::archive::ArchiveIndex;
+    let Some(bytes) = vh_c02::seeds::archive_index_small(c.key, c.off, c.n) else {
+        return Verdict::pass().class("builder-refused");
+    };
+    match <ArchiveIndex as CascFormat>::parse(&bytes) {
+        Ok(p) => {
+            let mut v = Verdict::pass().nontrivial(c.n >= 2).class_if(c.key != 16 || c.off != 4, "non-16/4-layout");
+            // 1-byte keys cannot hold c.n distinct keys: the builder may merge or keep duplicates; only the count bound is judged
+            if c.key >= 4 && p.entries.len() != c.n as usize {
+                v = v.with_fail("C08:archive-index:builder-output-parses-to-different-content", format!("key {} off {}: built {} entries, parsed {}", c.key, c.off, c.n, p.entries.len()));
+            }
+            if p.footer.ekey_length != c.key || p.footer.offset_bytes != c.off {
+                v = v.with_fail("C08:archive-index:builder-output-parses-to-different-content", format!("footer says key {} off {}, built with key {} off {}", p.footer.ekey_length, p.footer.offset_bytes, c.key, c.off));
+            }
+            v
+        }
+        Err(e) => Verdict::fail("C08:archive-index:builder-output-rejected-by-own-parser", format!("key {} off {} n {}: {}", c.key, c.off, c.n, vh_engine::util::normalise(&e.to_string()))),
+    }
+}
+
 // ---- text configs ----------------------------------------------------------
 
 #[derive(Debug, Clone, Serialize, Deserialize)]
@@ -491,6 +521,15 @@ fn main() {
             check_patch_index,
         )
         .shards(8),
+    );
+    ck.run(
+        Section::enumerate(
+            "builder-archive-index",
+            "ArchiveIndexBuilder::with_config: every key size 1..=16 x offset width {4,5,6} x entry count {1, 2, 40, 200, 400}: the built index must be accepted by ArchiveIndex::parse with the same layout and entry count",
+            || Box::new((1u8..=16).flat_map(|key| [4u8, 5, 6].into_iter().flat_map(move |off| [1u32, 2, 40, 200, 400].into_iter().map(move |n| ArchiveIndexProg { key, off, n })))),
+            check_archive_index,
+        )
+        .shards(4),
     );
     ck.run(
         Section::pbt(
